@@ -4,14 +4,33 @@ PROPS = {
     'C04': dict(
         title='Bit-string operations depend only on the bit sequence',
         verus_units=['bitstr'],
-        kani_groups=[],
+        kani_groups=['codec.rs'],
         design_ref='DESIGN.md section 5 / C04',
+        bounded_note='Kani stand-ins for detach / eq_with / to_bytes / bytestr / to_bytes_with_padding / to_hex_string: 3-byte backing '
+                     'buffer with symbolic contents, concrete ranges S..E from the stated index sets; labelled BOUNDED, not counted as proved',
+        assumed_backed_by={'Bitstr::detach': 'c04_detach*'},
+        not_decided=['from_hex_str (chars(): outside Verus, Kani on String parsing too heavy)',
+                     'ownership situations are covered by contracts quantifying over any (range, buffer) pair, not by enumerating histories'],
         technique='Verus contracts (view() = bit sequence, type invariant) on functions extracted from src/bitstr.rs each run; Kani bounded stand-ins for adapter-chain functions',
         level_text='Every obligation is a deductive proof over all buffer lengths, alignments, ownership-independent '
                    'views and stale bits: each bit-string operation is specified against the plain bit sequence view() '
                    'and Verus discharges it function by function, callers against callee contracts.',
         level_note='Trusted: Verus/Z3, vstd std specs, the extraction rules (listed per run), assumed contracts of data_mut '
                    '(Rc::make_mut + Cow::to_mut), detach/eq_with/byte+hex export (bounded Kani stand-ins, labelled bounded).',
+    ),
+    'C05': dict(
+        title='Number <-> bits codecs are exact inverses and independent of alignment',
+        verus_units=['bitstr'],
+        kani_groups=['codec.rs'],
+        design_ref='DESIGN.md section 5 / C05',
+        technique='Kani/CBMC harness families over concrete (width, offset, byte order) with fully symbolic values and backing bytes, '
+                  'checked against a reference decoder that reads the bit sequence only; Verus contract on Iter8::next (the 8-bit grouping all codecs share)',
+        level_text='Each family member (one width 1..128, one bit offset 0..7, one byte order) is a complete proof: all loops are bounded '
+                   'by the concrete width with unwinding assertions on, the i128 value / the backing bytes (including stale bits around the '
+                   'field) are fully symbolic. The family is exhaustive over the stated index set (thorough: all 128 widths x 8 offsets x 2 orders; '
+                   'quick: boundary widths and offsets).',
+        level_note='Trusted: Kani 0.68/CBMC bit-precise semantics incl. f32/f64 from/to bytes, the reference decoder in kani/codec.rs '
+                   '(bit loop), Verus/Z3 for Iter8::next. Widths >128 are outside the property.',
     ),
 }
 
